@@ -18,7 +18,10 @@ import common
 import gen
 import harness
 
-THEOREMS = ["Grc.Det.key_perm", "Grc.Det.sameSet_perm_left", "Grc.Det.attr_cell_order_independent", "Grc.GA.codeWinner_perm"]
+THEOREMS = ["Grc.Det.key_perm", "Grc.Det.sameSet_perm_left", "Grc.Det.attr_cell_order_independent", "Grc.GA.codeWinner_perm",
+            "Grc.Det.iterate_perm", "Grc.Det.iterate_congr", "Grc.Det.iterate_address_dependent",
+            "Grc.DetGen.address_ordered_iterations_covered", "Grc.DetGen.master_tables_creation_ordered",
+            "Grc.DetGen.creation_counter_is_a_function_of_the_source", "Grc.DetGen.master_table_iteration_deterministic"]
 
 SUITE = [("PigLatinMain.gdl", "PigLatinInput.ttf", []), ("SchMain.gdl", "SchInput.ttf", ["-v4"])]
 
@@ -33,7 +36,7 @@ def digest(d, out, err):
 
 def run(tier, seed, replay=None):
     rep = common.Report("C13", tier, seed)
-    common.lean_gate(rep, THEOREMS)
+    common.lean_gate(rep, THEOREMS, uses_det=True)
     build = common.build_repo("rel")
     work = common.new_workdir("c13")
     n = 16 if tier == "quick" else 48
